@@ -214,7 +214,8 @@ def rule_r3(chk, db, conf):
                 vroot = flow.backward(b, t["args"][1], at=bi)
                 key_in = any(l == key_l for l, _ in recv.params)
                 vroot_bucket = any(l == bucket_l for l, _ in vroot.params) and any(callee_def(x) in conf for _, x, _ in vroot.calls)
-                if key_in and vroot_bucket and not any(l == bucket_l for l, _ in recv.params):
+                if key_in and vroot_bucket:
+                    # confined to the bucket directory (whether the key is resolved relative to it or joined to it first)
                     ok = True
                 elif key_in:
                     why = "the key is resolved against a virtual root that is not the bucket directory"
